@@ -1128,6 +1128,29 @@ func (env *specEnv) eval(x ast.Expr) (T, error) {
 			v, _ := f.mapLookup(a, k.S, env.cur)
 			r := T{v, e.sortOf(u.Elem()), u.Elem()}
 			env.wf(r)
+			if strings.Contains(k.S, "!q") && !strings.Contains(a.S, "!q") {
+				// heap well-formedness under a quantified key: every reference stored in the map is allocated
+				_, _, mv, mvs := f.mapHeaps(u)
+				ks := e.sortOf(u.Key())
+				sel := "(select (select " + e.H(env.cur, mv, mvs) + " " + a.S + ") wk)"
+				ref := ""
+				switch r.Sort {
+				case "Int":
+					switch u.Elem().Underlying().(type) {
+					case *types.Pointer, *types.Map, *types.Chan:
+						ref = sel
+					}
+				case "Iface":
+					ref = "(ival " + sel + ")"
+				case "Slice":
+					ref = "(sarr " + sel + ")"
+				}
+				if ref != "" {
+					e.declFun("owner", []string{"Int"}, "Int")
+					e.addDecl("mapwf@"+a.S+"@"+e.H(env.cur, mv, mvs)+"@"+e.H(env.cur, "W", "Int"),
+						"(assert (forall ((wk "+ks+")) (! (<= (owner "+ref+") "+e.H(env.cur, "W", "Int")+") :pattern ("+sel+"))))")
+				}
+			}
 			if e.protSet[a.S] {
 				f.protect(r)
 			}
